@@ -16,6 +16,18 @@ for c in conf:
     if (pid, c["key"]) in have:
         continue
     what = "%s %s: %s at %s" % (c["unit"].split("@")[0], c["kind"], c["msg"], c["site"])
+    try:
+        v = json.load(open(os.path.join(c["replay"], "violation.json")))
+        inp = v.get("inputs", {})
+        arr = sorted((int(k[3:-1]), x) for k, x in inp.items() if k.startswith("in[") and k.endswith("]"))
+        if arr:
+            n = inp.get("n", len(arr))
+            what += "; witness input (first n=%d bytes): %s" % (n, bytes(x for _, x in arr)[:n].hex())
+        else:
+            nz = {k: x for k, x in inp.items() if x}
+            what += "; witness: %s" % json.dumps(dict(list(nz.items())[:12]))
+    except Exception:
+        pass
     kf["findings"].append({"property": pid, "status": "known", "key": c["key"], "what": what})
     n += 1
 json.dump(kf, open(os.path.join(V, "known_findings.json"), "w"), indent=1)
